@@ -575,7 +575,10 @@ func (m *vMachC15) invariant(t *rapid.T) {
 // actions
 
 func (m *vMachC15) actBackup(t *rapid.T) {
-	r := m.pickRepo(t)
+	m.backup(t, m.pickRepo(t))
+}
+
+func (m *vMachC15) backup(t *rapid.T, r *vRepoC15) {
 	if len(r.models) >= 6 {
 		m.forget(t, r)
 		return
@@ -606,7 +609,7 @@ func (m *vMachC15) actBackup(t *rapid.T) {
 		Force:     rapid.IntRange(0, 3).Draw(t, "force") == 0,
 		TimeStamp: vTimeString(time.Date(2020, 1, 1, 0, 0, 0, 0, time.Local).Add(time.Duration(m.clock) * time.Hour)),
 	}
-	if rapid.IntRange(0, 3).Draw(t, "tagged") == 0 {
+	if rapid.Bool().Draw(t, "tagged") {
 		bo.Tags = data.TagLists{data.TagList{"x"}}
 	}
 	model := vSnapC15{Src: r.src, Tree: tr.Clone()}
@@ -708,7 +711,7 @@ func (m *vMachC15) actPrune(t *rapid.T) {
 
 func (m *vMachC15) actTag(t *rapid.T) {
 	r := m.pickRepo(t)
-	mode := rapid.SampledFrom([]string{"add", "set", "remove"}).Draw(t, "tagmode")
+	mode := rapid.SampledFrom([]string{"add", "add", "set", "remove"}).Draw(t, "tagmode")
 	tag := rapid.SampledFrom([]string{"x", "y", "z"}).Draw(t, "tag")
 	var ids []string
 	if rapid.Bool().Draw(t, "tagsome") {
@@ -761,6 +764,12 @@ func (m *vMachC15) actRewrite(t *rapid.T) {
 	var ids []string
 	if !forget || rapid.Bool().Draw(t, "rwsome") {
 		ids = r.pickSnaps(t, "rewrite", 1, 1)
+	}
+	// mostly a name that occurs in the (first) selected snapshot, so that the rewrite changes something
+	if from := append(ids, r.snapsBySeq()...); len(from) > 0 && rapid.IntRange(0, 3).Draw(t, "patFromTree") != 0 {
+		if ps := r.models[from[0]].Tree.Paths(); len(ps) > 0 {
+			pat = path.Base(ps[rapid.IntRange(0, len(ps)-1).Draw(t, "patPath")])
+		}
 	}
 	ro := RewriteOptions{Forget: forget, ExcludePatternOptions: filter.ExcludePatternOptions{Excludes: []string{pat}}}
 	op := &vOpC15{name: "rewrite", r: r, desc: fmt.Sprintf("--exclude %q forget=%v %s", pat, forget, vShortC15(ids)), replaced: map[string]string{}}
@@ -1014,7 +1023,9 @@ func TestVerifC15Histories(t *testing.T) {
 	st := verifkit.Begin(t, "C15")
 	rapid.Check(t, func(t *rapid.T) {
 		m := &vMachC15{st: st, firstCrash: -1}
-		comp := rapid.SampledFrom([]repository.CompressionMode{repository.CompressionAuto, repository.CompressionOff, repository.CompressionMax}).Draw(t, "compression")
+		// max is rare: every repository open allocates GOMAXPROCS "best" zstd encoders (tens of MB), which dominates the run time
+		comp := rapid.SampledFrom([]repository.CompressionMode{repository.CompressionAuto, repository.CompressionAuto, repository.CompressionAuto, repository.CompressionAuto,
+			repository.CompressionOff, repository.CompressionOff, repository.CompressionOff, repository.CompressionMax}).Draw(t, "compression")
 		var versions []string
 		for i := range m.repos {
 			e, err := vNewEnv(true)
@@ -1045,16 +1056,22 @@ func TestVerifC15Histories(t *testing.T) {
 				f(t)
 			}
 		}
+		// every history starts with some content: two backups into A, one into B
+		for _, r := range []*vRepoC15{m.repos[0], m.repos[0], m.repos[1]} {
+			m.backup(t, r)
+			m.invariant(t)
+		}
+
 		t.Repeat(map[string]func(*rapid.T){
 			"":                 m.invariant,
 			"backup":           withPw(m.actBackup),
 			"backup2":          withPw(m.actBackup),
 			"forget":           withPw(m.actForget),
-			"forget2":          withPw(m.actForget),
 			"prune":            withPw(m.actPrune),
 			"prune2":           withPw(m.actPrune),
 			"tag":              withPw(m.actTag),
 			"rewrite":          withPw(m.actRewrite),
+			"rewrite2":         withPw(m.actRewrite),
 			"copy":             withPw(m.actCopy),
 			"repair-index":     withPw(m.actRepairIndex),
 			"repair-packs":     withPw(m.actRepairPacks),
